@@ -246,6 +246,13 @@ def _one(ctx, rng, T, given=None, sample=False):
             r_ = E.get(k, 0j) + F.get(k, 0j)
             if abs(r_.real) > TOL or abs(r_.imag) > 2 * TOL:
                 bal.append((k, r_))
+    # the property quantifies over positive weights: a negative weight that the implementation accepts (positive island
+    # sum) is outside its domain (the theorem C10_gen_share needs 0 < weight sum at a shared bus)
+    allw = [float(v) for v in net.ext_grid.slack_weight.values] + [float(v) for v in net.gen.slack_weight.values] + \
+           [float(v) for v in net.xward.slack_weight.values]
+    if any(w < 0 for w in allw):
+        ctx.count("negative_weight_accepted_ratio_law_not_applied")
+        ratios, xr, keep_bad = [], [], []
     T["orc"].append((x, ratios, xr, keep_bad, xws, others, case, bal))
     ctx.case({"net_sha": hashlib.sha1(net_js.encode()).hexdigest(), "opts": opts}, nontrivial=nontriv,
              sample={"input": {"ext_grid_w": [float(v) for v in net.ext_grid.slack_weight.values], "gen_w": [float(v) for v in net.gen.slack_weight.values],
